@@ -2,7 +2,7 @@
 
     Theorems about the faithful model in [KTupleModel.v] of
     crates/parol/src/analysis/k_tuple.rs.  *)
-From Coq Require Import List NArith Bool Lia.
+From Coq Require Import List PeanoNat NArith Bool Lia.
 From Parol Require Import Analysis.KTupleModel Analysis.KTupleBits.
 Import ListNotations.
 Local Open Scope N_scope.
@@ -1715,6 +1715,81 @@ Proof.
   exists ex_9w, ex_5w, 20.
   repeat (split; [vm_compute; reflexivity|]).
   eexists. split; [vm_compute; reflexivity|]. split; vm_compute; reflexivity.
+Qed.
+
+(** ** What the abstract k-concatenation is, in textbook terms *)
+Lemma firstn_min {A} n (l : list A) : firstn (Nat.min n (length l)) l = firstn n l.
+Proof.
+  destruct (Nat.le_ge_cases n (length l)) as [H|H].
+  - rewrite Nat.min_l by assumption. reflexivity.
+  - rewrite Nat.min_r by assumption. rewrite firstn_all, firstn_all2 by assumption. reflexivity.
+Qed.
+
+Theorem a_concat_eps_r k L : a_concat k L [Eps] = L.
+Proof. reflexivity. Qed.
+Theorem a_concat_nil_r k L : a_concat k L [] = L.
+Proof. unfold a_concat, g_concat. cbn [g_is_eps is_nil orb]. reflexivity. Qed.
+Theorem a_concat_eps_l k L :
+  a_is_eps L = false -> L <> [] -> a_concat k [Eps] L = a_concat k [] L.
+Proof.
+  unfold a_is_eps, a_concat, g_concat. intros E Hn. rewrite E.
+  destruct L as [|x r]; [contradiction Hn; reflexivity|]. reflexivity.
+Qed.
+
+Lemma In_firstn {A} (x : A) n l : In x (firstn n l) -> In x l.
+Proof.
+  intro H. rewrite <- (firstn_skipn n l). apply in_or_app. left. exact H.
+Qed.
+
+(** for proper (non-epsilon, non-empty right operand) strings: [L1] if it is already
+    k-long or ends in [$], else the k-prefix of [L1 ++ L2] *)
+Theorem a_concat_firstn k L1 L2 :
+  a_is_eps L1 = false -> a_is_eps L2 = false -> L2 <> [] ->
+  a_concat k L1 L2 =
+  if (k <=? lenN L1) || a_last_end L1 then L1 else firstn (N.to_nat k) (L1 ++ L2).
+Proof.
+  unfold a_is_eps, a_concat, a_last_end, g_concat. intros E1 E2 Hn.
+  rewrite E1, E2. destruct L2 as [|x2 r2]; [contradiction Hn; reflexivity|].
+  cbn [is_nil orb]. unfold g_complete. rewrite E1. cbn [negb andb].
+  destruct (N.leb_spec k (lenN L1)) as [H|H]; [reflexivity|]. cbn [orb].
+  destruct (g_last_end t_isD L1); [reflexivity|].
+  rewrite firstn_app. unfold lenN in *.
+  rewrite (firstn_all2 L1) by lia. f_equal.
+  replace (N.to_nat (N.min (k - N.min (N.of_nat (length L1)) k)
+                           (N.min (N.of_nat (length (x2 :: r2))) k)))
+    with (Nat.min (N.to_nat k - length L1) (length (x2 :: r2))) by lia.
+  apply firstn_min.
+Qed.
+
+(** epsilon discipline: epsilon only ever occurs as the one-element sequence *)
+Definition eps_free (L : list term) : Prop := ~ In Eps L.
+Definition eps_disciplined (L : list term) : Prop := L = [Eps] \/ eps_free L.
+
+Lemma a_is_eps_false_free L : eps_disciplined L -> a_is_eps L = false -> eps_free L.
+Proof. intros [->|H] E; [discriminate | assumption]. Qed.
+
+Theorem a_push_disciplined L x L' :
+  eps_free L -> x <> Eps -> a_push L x = Some L' -> eps_free L'.
+Proof.
+  unfold a_push, g_push, eps_free. intros HL Hx.
+  destruct (MAX_K <=? lenN L); [discriminate|].
+  destruct (g_last_end t_isD L); intro E; apply Some_inj in E; subst L'; [assumption|].
+  intro Hin. apply in_app_or in Hin. destruct Hin as [Hin|[Hin|[]]]; [auto | congruence].
+Qed.
+
+Theorem a_concat_disciplined k L1 L2 :
+  eps_disciplined L1 -> eps_disciplined L2 -> eps_disciplined (a_concat k L1 L2).
+Proof.
+  intros H1 H2. unfold a_concat, g_concat.
+  destruct (g_is_eps t_isE L2 || is_nil L2) eqn:E2; [assumption|].
+  apply orb_false_elim in E2. destruct E2 as [E2 _].
+  pose proof (a_is_eps_false_free L2 H2 E2) as F2.
+  assert (F1 : eps_free (if g_is_eps t_isE L1 then [] else L1)).
+  { destruct (g_is_eps t_isE L1) eqn:E1; [intros []|]. apply a_is_eps_false_free; assumption. }
+  destruct (g_complete t_isE t_isD k (if g_is_eps t_isE L1 then [] else L1));
+    right; [assumption|].
+  intro Hin. apply in_app_or in Hin. destruct Hin as [Hin|Hin]; [exact (F1 Hin)|].
+  apply F2. eapply In_firstn; eassumption.
 Qed.
 
 (** ** Examples: the hypotheses of the theorems above are satisfiable *)
